@@ -60,6 +60,52 @@ AWKWARD = ["", " ", "a:b", "a,b", "1:a,", "a\x00b", "\x00", ".", "..", "a/b", "\
            "é", "ﬁ", "x" * 300, "ü" * 200, "0", ",", ":", "\n", "tahoe", "İ", "ß"]
 
 
+# ---- boundary-biased non-NFC spellings (used by C19 / C20): combining marks at the edges of the Combining Diacritical
+# Marks block and the usual ones, on ASCII bases (so that the MARK is the largest code point of the name) and next to
+# higher characters; reordering cases (two marks in non-canonical order); Hangul jamo; compatibility characters.
+MARKS = ["\u0300", "\u0301", "\u0302", "\u0308", "\u0323", "\u0327", "\u0338", "\u0345", "\u036f"]
+
+
+def _build_unstable():
+    out = []
+    bases = ["a", "e", "o", "u", "A", "c", "n", "=", "<", "\u03b1"]
+    for m in MARKS:
+        for b in bases:
+            out.append(b + m)
+        for m2 in MARKS:
+            if m2 != m:
+                out.append("a" + m + m2)
+    core = [x for x in out if unicodedata.normalize("NFC", x) != x]
+    more = []
+    for x in core:
+        more.append("voil" + x + ".txt")            # the mark stays the maximum of an otherwise ASCII name
+        more.append(x + "\u8a9e")                    # ... or a higher character elsewhere in the name
+        more.append("\u00e9" + x)
+    extra = ["\u1100\u1161", "\u1100\u1161\u11a8", "\u212b", "\u2126", "\u1e9b\u0323", "q\u0307\u0323", "\u0344", "\u0340", "\u0341", "\u0343",
+             "\u0374", "\u037e", "\u0958"]
+    allx = [x for x in core + more + extra if unicodedata.normalize("NFC", x) != x]
+    return sorted(set(allx))
+
+
+UNSTABLE = _build_unstable()
+UNSTABLE_MARK_IS_MAX = [x for x in UNSTABLE if max(x) in MARKS]
+UNSTABLE_U0300_IS_MAX = [x for x in UNSTABLE if max(x) == "\u0300"]
+
+
+def gen_unstable(rng):
+    """A name that changes under NFC, biased to the lowest combining mark being the largest code point of the name."""
+    r = rng.random()
+    if r < .3:
+        return rng.choice(UNSTABLE_U0300_IS_MAX)
+    if r < .6:
+        return rng.choice(UNSTABLE_MARK_IS_MAX)
+    return rng.choice(UNSTABLE)
+
+
+def mark_is_max(name):
+    return bool(name) and max(name) in MARKS and unicodedata.normalize("NFC", name) != name
+
+
 def gen_name(rng, pool=None):
     r = rng.random()
     if pool and r < .25:
